@@ -104,6 +104,11 @@ CLAIMED = {
             "Between consecutive instruction callbacks: state reads <= 16 + gas/20 and allocation <= 64 KiB + 64*gas + 4*memory, over C03's hostile generators (length fields 2^12..2^256-1 presented to journal instructions and Artela precompiles), single-instruction programs for every length-taking standard opcode with lengths 2^10..2^64 on 4 forks, and the standard gadget workload as the no-false-alarm control.",
             "Hashing/copying work is observed through allocation and state reads; intervals in which the event log itself grows are not measured; the reference-journal length amplification is recorded as known findings.",
             "DESIGN.md §3 C20"),
+    "C17": ("exploration",
+            "Go race detector (-race build, checkptr) over barrier-started concurrent EVM instances with sequential-vs-concurrent result comparison; Cancel landing points swept on the VM's own step counter",
+            "N in {2..32} goroutines with their own EVM and state execute journal-heavy programs, Aspect-bound call trees and standard programs on one fork with and without extra EIPs; every result must equal the sequential run and every race report touching artela-evm is a violation (external reports are counted). Looping contracts are cancelled from another goroutine at step k (swept, incl. before start / after end / twice): no panic, bookkeeping closed, and a jump executed after Cancel() returned must end its frame.",
+            "Schedules are sampled, not enumerated; the detector sees executed accesses only; promptness judged in logical steps; a hang = watchdog = inconclusive.",
+            "DESIGN.md §3 C17"),
 }
 
 # Properties not (yet) claimed. Reason must be current.
